@@ -235,10 +235,30 @@ def rule_cap_independence_ceemd(ctx, rid, fi):
 
 
 # ----------------------------------------------------------------------------------------------
+def _list_appends(t):
+    """(base, k): t is `base` after k single appends (the evaluator's term for a list that received elements)"""
+    k = 0
+    while t[0] == 'mut' and t[1] == 'append' and len(t[3]) == 1:
+        t = t[2]
+        k += 1
+    if t[0] == 'bin' and t[1] == '+' and t[3][0] == 'list':
+        return t[2], k + len(t[3][1])
+    return t, k
+
+
 def _blocks(t, head_atom):
     """Number of column blocks a term is known to add to head_atom (concat chains), or None."""
     if t == head_atom:
         return 0
+    # the components are collected in a list and the array is rebuilt from it in every layer:
+    #   cols.append(next_imf); imf = np.concatenate(cols, axis=1)
+    # the list at the loop head holds the columns of the array at the loop head, so k appends add k blocks
+    if t[0] == 'call' and t[1] in ('numpy.concatenate', 'numpy.hstack', 'numpy.column_stack') and t[2] \
+            and t[2][0][0] in ('mut', 's') and (t[1] != 'numpy.concatenate' or dict(t[3]).get(
+                'axis', t[2][1] if len(t[2]) > 1 else None) == C(1)):
+        base, k = _list_appends(t[2][0])
+        if base[0] == 's' and '@L' in base[1] and k >= 1:
+            return k
     if t[0] == 'call' and t[1] in ('numpy.hstack', 'numpy.column_stack') and t[2] and t[2][0][0] in ('tuple', 'list'):
         t = ('call', 'numpy.concatenate', t[2], (('axis', C(1)),))
     if t[0] == 'call' and t[1] == 'numpy.append' and len(t[2]) == 2 and dict(t[3]).get('axis') == C(1):
@@ -373,6 +393,14 @@ def _cap_bound_one(ctx, rid, fi, loop, acc, tag, head_acc, alg, ev, capatom, sum
             # the guard may count the columns of the accumulator directly:  acc.shape[1] (op) cap
             colg = None
             for sa, sb, flip in ((c[2], c[3], False), (c[3], c[2], True)):
+                if sb == capatom and sa[0] == 'call' and sa[1] == 'builtins.len' and len(sa[2]) == 1 and sa[2][0][0] in ('mut', 's'):
+                    # the guard counts the list the components are collected in: len(cols) (op) cap
+                    base_, k_ = _list_appends(sa[2][0])
+                    if base_[0] == 's' and '@L' in base_[1]:
+                        op_ = c[1]
+                        if flip:
+                            op_ = {'>=': '<=', '>': '<', '<=': '>=', '<': '>', '==': '==', '!=': '!='}[op_]
+                        colg = ('#cols', Fraction(k_), op_)
                 if sb == capatom and sa[0] == 'sub' and sa[2] == C(1) and sa[1][0] == 'attr' and sa[1][2] == 'shape':
                     j = _blocks(sa[1][1], head_acc)
                     if j is not None:
@@ -498,6 +526,11 @@ def _initial_blocks(t):
     """Column blocks of the accumulator after the first iteration (term level)."""
     if t is None:
         return None
+    if t[0] == 'call' and t[1] in ('numpy.concatenate', 'numpy.hstack', 'numpy.column_stack') and t[2] \
+            and t[2][0][0] == 'mut':
+        base, k = _list_appends(t[2][0])
+        if base == ('list', ()):
+            return k
     if t[0] == 'call' and t[1] in ('numpy.concatenate', 'numpy.hstack', 'numpy.column_stack') and t[2] \
             and t[2][0][0] in ('tuple', 'list'):
         parts = t[2][0][1]
